@@ -63,6 +63,12 @@ macro_rules! systems {
             "ring.arr4" => sys_ds::RingSys<futures_intrusive::buffer::ArrayBuf<harness::Tag, [harness::Tag; 4]>>,
             "ring.fix" => sys_ds::RingSys<futures_intrusive::buffer::FixedHeapBuf<harness::Tag>>,
             "ring.grow" => sys_ds::RingSys<futures_intrusive::buffer::GrowingHeapBuf<harness::Tag>>,
+            "ringscript.arr63" => sys_ds::RingScript<futures_intrusive::buffer::ArrayBuf<harness::Tag, [harness::Tag; 63]>>,
+            "ringscript.arr64" => sys_ds::RingScript<futures_intrusive::buffer::ArrayBuf<harness::Tag, [harness::Tag; 64]>>,
+            "ringscript.arr96" => sys_ds::RingScript<futures_intrusive::buffer::ArrayBuf<harness::Tag, sys_ds::A96>>,
+            "ringscript.arr128" => sys_ds::RingScript<futures_intrusive::buffer::ArrayBuf<harness::Tag, [harness::Tag; 128]>>,
+            "ringscript.fix" => sys_ds::RingScript<futures_intrusive::buffer::FixedHeapBuf<harness::Tag>>,
+            "ringscript.grow" => sys_ds::RingScript<futures_intrusive::buffer::GrowingHeapBuf<harness::Tag>>,
             "ds.list" => sys_ds::ListSys,
             "ds.heap" => sys_ds::HeapSys,
             "burst" => sys_burst::Sys,
